@@ -50,7 +50,30 @@ def parseAll (ops : String) : Option (List Op) :=
 def render (r : List Out × KB) : String :=
   "ok " ++ (if r.1.isEmpty then "-" else ",".intercalate (r.1.map showOut))
 
+/-- byte set as ranges `lo-hi,lo-hi` (decimal), `-` = empty -/
+def parseRanges (w : String) : Option (List (Nat × Nat)) :=
+  if w == "-" then some [] else
+  (w.splitOn ",").mapM fun r =>
+    match r.splitOn "-" with
+    | [a, b] => do
+        let a ← a.toNat?
+        let b ← b.toNat?
+        pure (a, b)
+    | _ => none
+
+def inRanges (rs : List (Nat × Nat)) (x : Nat) : Bool := rs.any fun r => decide (r.1 ≤ x) && decide (x ≤ r.2)
+
+def parseRds (w : String) : Option (List Rd) :=
+  if w == "-" then some [] else
+  w.toList.mapM fun c => if c == 'b' then some Rd.byte else if c == 'f' then some Rd.full else none
+
 def handle : List String → String
+  | ["full", lead, trail, ops, rds] =>
+    match parseRanges lead, parseRanges trail, parseAll ops, parseRds rds with
+    | some l, some t, some o, some r =>
+      let res := readAll (inRanges l) (inRanges t) (run init o).2 r
+      "ok " ++ (if res.1.isEmpty then "-" else ",".intercalate (res.1.map toHex))
+    | _, _, _, _ => "bad-op"
   | ["run", ops] =>
     match parseAll ops with
     | some l => render (run init l)
